@@ -215,14 +215,17 @@ impl FixtureDatabase {
             debug!("  Checking conftest.py at: {:?}", conftest_path);
 
             // First check if the fixture is defined directly in this conftest
-            for def in definitions.iter() {
-                if def.file_path == conftest_path && filter(def) {
-                    info!(
-                        "Found fixture {} in conftest.py: {:?}",
-                        fixture_name, conftest_path
-                    );
-                    return Some(def.clone());
-                }
+            // (last definition wins, as in the same-file case)
+            if let Some(def) = definitions
+                .iter()
+                .filter(|def| def.file_path == conftest_path && filter(def))
+                .max_by_key(|def| def.line)
+            {
+                info!(
+                    "Found fixture {} in conftest.py: {:?}",
+                    fixture_name, conftest_path
+                );
+                return Some(def.clone());
             }
 
             // Then check if the conftest imports this fixture
